@@ -175,7 +175,8 @@ fn c20_disconnect_removes_only_that_peer() {
     let id_a: u32 = 0;
     let id_b: u32 = 1;
     let mut net = two_peers(kani::any(), id_a, id_b);
-    net.peers.get_mut(PeerId(id_a)).unwrap().conn.verif_set_online();
+    // any state but Unconnected permits disconnect(); Connecting carries no payload (cheap to set)
+    net.peers.get_mut(PeerId(id_a)).unwrap().conn.verif_set_connecting();
     let mut cb = NCb { sends: 0, last_addr: 0, last_byte: 0, fail: false };
     let by_ignore: bool = kani::any();
     // the peer is gone afterwards whether or not the close datagram could be handed to the socket
@@ -305,14 +306,15 @@ fn c20_needs_tick_is_earliest_peer_deadline() {
     let tb: u64 = kani::any::<u64>() >> 1;
     let b_online: bool = kani::any();
     {
+        // "established" here = any state that reports a deadline (Connecting: its send timer)
         let a = net.peers.get_mut(PeerId(id_a)).unwrap();
-        a.conn.verif_set_online();
+        a.conn.verif_set_connecting();
         a.conn.verif_set_tag(ta);
     }
     {
         let b = net.peers.get_mut(PeerId(id_b)).unwrap();
         if b_online {
-            b.conn.verif_set_online();
+            b.conn.verif_set_connecting();
         }
         b.conn.verif_set_tag(tb);
     }
